@@ -431,6 +431,42 @@ func C16(c *fw.Ctx) {
 			}
 		}
 	}
+	// numbers with long numerals: the quotients k/d and the roots of k (k up to 40, d over 3, 7, 9, 11, 13),
+	// scaled by every power of ten from 10^-3 to 10^5, written as a literal (the shortest numeral that
+	// denotes that double) and produced by the arithmetic: the literal shows as its own numeral, and
+	// literal == literal-in-the-other-script, literal - literal == 0
+	{
+		var vs []float64
+		for k := 1; k <= 40; k++ {
+			for _, d := range []float64{3, 7, 9, 11, 13} {
+				vs = append(vs, float64(k)/d)
+			}
+			vs = append(vs, math.Sqrt(float64(k)))
+		}
+		seen := map[string]bool{}
+		for _, base := range vs {
+			for e := -3; e <= 5; e++ {
+				v := base * math.Pow(10, float64(e))
+				txt := strconv.FormatFloat(v, 'f', -1, 64)
+				if seen[txt] || !strings.Contains(txt, ".") || v == math.Trunc(v) {
+					continue
+				}
+				seen[txt] = true
+				if !c.Mine() {
+					continue
+				}
+				bn := toScript(txt, 1)
+				prog := []*model.N{
+					model.Print(model.NumT(txt)),
+					model.Print(model.Bin("==", model.NumT(txt), model.NumT(bn))),
+					model.Print(model.Arr(model.NumT(bn), model.Un("-", model.NumT(txt)))),
+					model.Print(model.Bin("==", model.Bin("-", model.NumT(txt), model.NumT(txt)), model.Num(0))),
+				}
+				judge(c, prog, judgeOpts{SigPrefix: "long-numerals"})
+				c.R.States++
+			}
+		}
+	}
 	// long texts: the same text of n characters (n around 2^12 and 2^13, ASCII and Bangla) from a literal,
 	// from two halves joined by +, from a variable, from a function and from ইনপুট, in eight contexts
 	{
